@@ -36,21 +36,23 @@ Proof.
     apply listN_eqb_sound in E; subst; reflexivity.
 Qed.
 
+Lemma price_eqb_sound a b : price_eqb a b = true -> a = b.
+Proof.
+  destruct a as [a1 a2], b as [b1 b2]; unfold price_eqb; cbn; intros E.
+  apply andb_true_iff in E as [E1 E2]. apply N.eqb_eq in E1, E2. subst; reflexivity.
+Qed.
+
 Lemma tx_eqb_sound a b : tx_eqb a b = true -> a = b.
 Proof.
-  destruct a as [a1 a2 a3 a4 a5 a6], b as [b1 b2 b3 b4 b5 b6]; unfold tx_eqb; cbn.
+  destruct a as [a1 a2 a3 a4 a5 a6 a7], b as [b1 b2 b3 b4 b5 b6 b7]; unfold tx_eqb; cbn.
   intros E.
   repeat (apply andb_true_iff in E as [E ?]).
   repeat match goal with H : N.eqb _ _ = true |- _ => apply N.eqb_eq in H end.
   match goal with H : list_eqb oaction_eqb _ _ = true |- _ =>
     apply (list_eqb_sound _ oaction_eqb_sound) in H end.
+  match goal with H : list_eqb price_eqb _ _ = true |- _ =>
+    apply (list_eqb_sound _ price_eqb_sound) in H end.
   subst; reflexivity.
-Qed.
-
-Lemma price_eqb_sound a b : price_eqb a b = true -> a = b.
-Proof.
-  destruct a as [a1 a2], b as [b1 b2]; unfold price_eqb; cbn; intros E.
-  apply andb_true_iff in E as [E1 E2]. apply N.eqb_eq in E1, E2. subst; reflexivity.
 Qed.
 
 Lemma bdata_eqb_sound a b : bdata_eqb a b = true -> a = b.
@@ -70,10 +72,48 @@ Qed.
 
 Lemma proposal_eqb_sound a b : proposal_eqb a b = true -> a = b.
 Proof.
-  destruct a as [m1 d1], b as [m2 d2]; unfold proposal_eqb; cbn; intros E.
-  apply andb_true_iff in E as [E1 E2]. apply N.eqb_eq in E1. apply bdata_eqb_sound in E2.
+  destruct a as [[h1 t1 p1 n1 r1 v1 x1] d1], b as [[h2 t2 p2 n2 r2 v2 x2] d2].
+  unfold proposal_eqb, commit_eqb;
+    cbn [m_height m_time m_proposer m_nvh m_lc_round m_lc_votes m_misb]. intros E.
+  repeat (apply andb_true_iff in E as [E ?]).
+  match goal with H : (_ =? _) && list_eqb price_eqb _ _ = true |- _ =>
+    apply andb_true_iff in H as [? ?] end.
+  repeat match goal with H : N.eqb _ _ = true |- _ => apply N.eqb_eq in H end.
+  match goal with H : bdata_eqb _ _ = true |- _ => apply bdata_eqb_sound in H end.
+  match goal with H : list_eqb price_eqb _ _ = true |- _ =>
+    apply (list_eqb_sound _ price_eqb_sound) in H end.
+  match goal with H : list_eqb N.eqb _ _ = true |- _ => apply listN_eqb_sound in H end.
   subst; reflexivity.
 Qed.
+
+(** ... and complete: the comparison is exactly equality of all cached fields *)
+Lemma price_eqb_refl a : price_eqb a a = true.
+Proof. unfold price_eqb. rewrite !N.eqb_refl. reflexivity. Qed.
+
+Lemma oaction_eqb_refl a : oaction_eqb a a = true.
+Proof. destruct a; cbn; apply listN_eqb_refl. Qed.
+
+Lemma tx_eqb_refl a : tx_eqb a a = true.
+Proof.
+  unfold tx_eqb. rewrite !N.eqb_refl, (list_eqb_refl _ oaction_eqb_refl),
+    (list_eqb_refl _ price_eqb_refl). reflexivity.
+Qed.
+
+Lemma bdata_eqb_refl a : bdata_eqb a a = true.
+Proof.
+  unfold bdata_eqb. rewrite !Bool.eqb_reflx, !N.eqb_refl, !listN_eqb_refl,
+    (list_eqb_refl _ price_eqb_refl), (list_eqb_refl _ tx_eqb_refl). reflexivity.
+Qed.
+
+Lemma proposal_eqb_refl a : proposal_eqb a a = true.
+Proof.
+  destruct a as [m d]. unfold proposal_eqb, commit_eqb.
+  rewrite !N.eqb_refl, bdata_eqb_refl, listN_eqb_refl, (list_eqb_refl _ price_eqb_refl).
+  reflexivity.
+Qed.
+
+Lemma proposal_eqb_iff a b : proposal_eqb a b = true <-> a = b.
+Proof. split; [apply proposal_eqb_sound|intros ->; apply proposal_eqb_refl]. Qed.
 
 (* ------------------------------------------------------------------------------------------ *)
 (** * Lookups after put / delete *)
